@@ -371,38 +371,33 @@ Definition spec_round (prec : Z) (x : xnum) : xnum :=
   | _ => x
   end.
 
-(* (long long)num of the code for a finite value: truncation; out of range is undefined behaviour, on x86-64 the
-   result is LLONG_MIN (the integer indefinite value) - modelled so, and so is the cast of NaN and infinities *)
-Definition ll_cast (x : xnum) : Z :=
+(* xpath_floor() / xpath_ceiling() as coded since /repo commit 0327904: floorl() / ceill(). Modelled from the C
+   library definition - the largest integer not above (smallest not below) the signed value; NaN, infinities and
+   zeros are returned as they are; a result of zero keeps the sign of the argument *)
+Definition impl_floor (x : xnum) : xnum :=
   match x with
   | XFin neg m =>
-      let t := Qfloor m in
-      let v := (if neg then - t else t)%Z in
-      if (ll_min <=? v)%Z && (v <=? ll_max)%Z then v else ll_min
-  | _ => ll_min
+      if q_is_zero m then x
+      else let z := Qfloor (sq neg m) in
+           if (z =? 0)%Z then XFin neg 0 else x_of_Z z
+  | _ => x
   end.
 
-(* xpath_floor(): (long long) cast of finite values (truncation towards zero); for NaN and infinities the function
-   fills nothing - its result is whatever the result set held before the call, see XPathSem.eval (None here) *)
-Definition impl_floor (x : xnum) : option xnum :=
-  match x with
-  | XFin _ _ => Some (x_of_Z (ll_cast x))
-  | _ => None
-  end.
-
-(* xpath_ceiling(): (long long)num != num ? (long long)num + 1 : num *)
 Definition impl_ceiling (x : xnum) : xnum :=
-  if x_eq (x_of_Z (ll_cast x)) x then x else x_of_Z (ll_cast x + 1).
+  match x with
+  | XFin neg m =>
+      if q_is_zero m then x
+      else let z := Qceiling (sq neg m) in
+           if (z =? 0)%Z then XFin neg 0 else x_of_Z z
+  | _ => x
+  end.
 
-(* xpath_round(): any zero or -0.5 <= num < 0 gives -0; otherwise num += 0.5 (long double addition), xpath_floor() *)
-Definition impl_round (prec : Z) (x : xnum) : xnum :=
-  if x_is_zero x || (x_lt x x_zero && x_le (XFin true (1 # 2)) x) then XFin true 0
-  else
-    let y := x_add prec x (XFin false (1 # 2)) in
-    match impl_floor y with
-    | Some r => r
-    | None => y
-    end.
+(* numeric identity: equal numbers (both zeros are equal) or both NaN *)
+Definition x_same (a b : xnum) : bool :=
+  match a, b with
+  | XNaN, XNaN => true
+  | _, _ => x_eq a b
+  end.
 
 (* ------------------------------------------------------------------------------------------------ *)
 (* strings: characters (recommendation) versus bytes (code)                                         *)
@@ -448,17 +443,6 @@ Fixpoint norm_space_aux (s : bytes) (pending started : bool) : bytes :=
   end.
 Definition normalize_space (s : bytes) : bytes := norm_space_aux s false false.
 
-(* xpath_normalize_space(): the string is rewritten only when a first scan finds leading, trailing or repeated
-   white space; a string whose only white space are single characters between words is returned as it is - also when
-   such a character is a tab, line feed or carriage return *)
-Fixpoint has_ws_run (s : bytes) (prev_ws : bool) : bool :=
-  match s with
-  | [] => prev_ws
-  | b :: s' => if is_xmlws b then (if prev_ws then true else has_ws_run s' true) else has_ws_run s' false
-  end.
-Definition impl_normalize_space (s : bytes) : bytes :=
-  if match s with b :: _ => is_xmlws b | [] => false end || has_ws_run s false then normalize_space s else s.
-
 (* translate(): characters of [from] replaced by the character at the same position of [to], removed when there
    is none; the first occurrence in [from] counts *)
 Fixpoint tr_lookup (c : bytes) (from to : list bytes) : option (option bytes) :=
@@ -478,55 +462,22 @@ Definition translate (bytewise : bool) (s from to : bytes) : bytes :=
                         | Some None => []
                         end) (str_chars bytewise s)).
 
-(* substring() by the recommendation: the characters at positions p (from 1) with
-   p >= round(start) and, with a length, p < round(start) + round(length), all in IEEE arithmetic *)
-Fixpoint substr_spec_aux (prec : Z) (cs : list bytes) (p : nat) (rs : xnum) (lim : option xnum) : bytes :=
+(* substring(): the characters at positions p (from 1) with p >= round(start) and, with a length,
+   p < round(start) + round(length), all in IEEE arithmetic (XPath 1.0 section 4.2). As coded (since /repo commit
+   29acf26 the same comparisons on long double) the positions are those of BYTES ([bytewise]). *)
+Fixpoint substr_aux (cs : list bytes) (p : nat) (rs : xnum) (lim : option xnum) : bytes :=
   match cs with
   | [] => []
   | c :: cs' =>
       let xp := x_of_nat p in
       (if x_le rs xp && match lim with Some l => x_lt xp l | None => true end then c else [])
-        ++ substr_spec_aux prec cs' (S p) rs lim
+        ++ substr_aux cs' (S p) rs lim
   end.
 
-Definition spec_substring (prec : Z) (s : bytes) (start : xnum) (len : option xnum) : bytes :=
+Definition substring (prec : Z) (bytewise : bool) (s : bytes) (start : xnum) (len : option xnum) : bytes :=
   let rs := spec_round prec start in
-  substr_spec_aux prec (utf8_chars s) 1 rs
+  substr_aux (str_chars bytewise s) 1 rs
     (match len with Some l => Some (x_add prec rs (spec_round prec l)) | None => None end).
-
-(* xpath_substring(): int64 start = round(start) - 1 (INT32_MIN for -inf, INT32_MAX for NaN/+inf),
-   int32 len = round(len) (0 when NaN or negative, INT32_MAX for +inf or when absent); BYTES at index i with
-   start <= i < start + len *)
-Definition i32_max : Z := (2 ^ 31 - 1)%Z.
-Definition i32_min : Z := (- 2 ^ 31)%Z.
-
-Fixpoint substr_impl_aux (s : bytes) (i : Z) (start lim : Z) : bytes :=
-  match s with
-  | [] => []
-  | b :: s' =>
-      if (i <? start)%Z then substr_impl_aux s' (i + 1)%Z start lim
-      else if (i <? lim)%Z then b :: substr_impl_aux s' (i + 1)%Z start lim
-      else []
-  end.
-
-Definition impl_substring (prec : Z) (s : bytes) (start : xnum) (len : option xnum) : bytes :=
-  let rs := impl_round prec start in
-  let st := match rs with
-            | XFin _ _ => ll_cast (x_sub prec rs (x_of_Z 1))
-            | XInf true => i32_min
-            | _ => i32_max
-            end in
-  let ln := match len with
-            | None => i32_max
-            | Some l =>
-                let rl := impl_round prec l in
-                match rl with
-                | XNaN => 0%Z
-                | XInf neg => if neg then 0%Z else i32_max
-                | XFin neg _ => if neg then 0%Z else ll_cast rl
-                end
-            end in
-  substr_impl_aux s 0%Z st (st + ln)%Z.
 
 (* ------------------------------------------------------------------------------------------------ *)
 (* boolean()                                                                                        *)
